@@ -153,8 +153,12 @@ func drawHistory(seed int64, hi int) {
 	cat, what := execDraw(ops)
 	rep.Evaluations++
 	rep.Distinct++
+	if cat != "" && seenSig["draw:"+cat] >= 2 {
+		violate("draw:"+cat, "")
+		return
+	}
 	if cat != "" {
-		for changed, rounds := true, 0; changed && rounds < 4; rounds++ {
+		for changed, rounds := true, 0; changed && rounds < 2; rounds++ {
 			changed = false
 			for k := 0; k < len(ops); k++ {
 				cand := append(append([]shadow.Op{}, ops[:k]...), ops[k+1:]...)
@@ -288,7 +292,8 @@ func execDraw(ops []shadow.Op) (string, string) {
 				if m.C[i].Lock {
 					return "locked-cell-drawn", fmt.Sprintf("%s: drawCell on locked cell (%d,%d)", what, p[0], p[1])
 				}
-				nb := p[0] > 0 && (wideSince[i-1] || prev[i-1].Wide || exp[i-1].Wide)
+				wideAt := func(j int) bool { return wideSince[j] || prev[j].Wide || exp[j].Wide }
+				nb := (p[0] > 0 && touched[i-1] && wideAt(i-1)) || (p[0] > 1 && touched[i-2] && (wideAt(i-2) || wideAt(i-1)))
 				if !touched[i] && !nb && !unlocked[i] && m.C[i].R != 0 {
 					return "unchanged-cell-drawn", fmt.Sprintf("%s: drawCell(%d,%d) although nothing changed there since the previous Show", what, p[0], p[1])
 				}
@@ -358,6 +363,13 @@ func execDraw(ops []shadow.Op) (string, string) {
 			s.Show()
 			if c, w := check(tag, false); c != "" {
 				return c, w
+			}
+			s.Show()
+			pg.drain()
+			for p, g := range pg.cells {
+				if g.stamp == pg.stamp {
+					return "idle-show-drew-cell", fmt.Sprintf("%s: a Show() directly after a Show() called drawCell(%d,%d)", tag, p[0], p[1])
+				}
 			}
 		case "sync", "corruptsync":
 			s.Sync()
@@ -476,8 +488,18 @@ func callbacks() {
 	}
 	sets = append(sets, fs{"EnableMouse()", func() { s.EnableMouse() }, 7}, fs{"DisableMouse()", func() { s.DisableMouse() }, 0})
 	btnOf := map[int]tcell.ButtonMask{0: tcell.ButtonNone, 1: tcell.Button1, 2: tcell.Button3, 3: tcell.Button2}
-	for _, st := range sets {
+	type pair struct{ prev, cur fs }
+	var pairs []pair
+	for _, a := range sets {
+		for _, b := range sets {
+			pairs = append(pairs, pair{a, b})
+		}
+	}
+	for _, pr := range pairs {
+		pr.prev.set()
+		st := pr.cur
 		st.set()
+		st.name = pr.prev.name + " then " + st.name
 		for _, handler := range []string{"onMouseClick", "onMouseMove"} {
 			for which := 0; which <= 3; which++ {
 				for m := 0; m < 8; m++ {
@@ -580,7 +602,7 @@ func step(f func()) bool {
 }
 
 func lifecycle() {
-	calls := []string{"Suspend", "Resume", "SetSize", "Fini"}
+	calls := []string{"Suspend", "Resume", "SetSize", "SetSizeSame", "Fini"}
 	var seqs [][]int
 	var gen func(pre []int)
 	gen = func(pre []int) {
@@ -615,6 +637,12 @@ func lifecycle() {
 				case "SetSize":
 					size++
 					s.SetSize(60+size, 20+size)
+				case "SetSizeSame":
+					w, h := 80, 24
+					if size > 0 {
+						w, h = 60+size, 20+size
+					}
+					s.SetSize(w, h)
 				case "Fini":
 					s.Fini()
 				}
